@@ -174,3 +174,85 @@ pub fn http(a: &Value) -> Value {
                "violation":violation,"why": if violation {"body size vs max_request_body_size decides wrongly"} else {""}})
     })
 }
+
+/// The two size limits stay apart on every route and transport: with (request limit, response limit) = (small, large) and (large, small), a request between the two
+/// is accepted / refused by the request limit alone, and an answer between the two is delivered / replaced by -32008 by the response limit alone.
+pub fn limits_apart(_a: &Value) -> Value {
+    use jsonrpsee_server::{RpcModule as M2, Server};
+    let rt = tokio::runtime::Builder::new_multi_thread().worker_threads(2).enable_all().build().unwrap();
+    rt.block_on(async move {
+        let mut why = vec![];
+        for entry in ["server", "low_level"] {
+            for (req, resp) in [(300u32, 3000u32), (3000, 300)] {
+                let mut m = M2::new(());
+                m.register_method("len", |p, _, _| p.one::<String>().map(|s| s.len()).unwrap_or(0)).unwrap();
+                m.register_method("long", |_, _, _| "a".repeat(1000)).unwrap();
+                let cfg = cfg(req, resp);
+                let (addr, handle) = if entry == "low_level" {
+                    low_level_server_with(cfg, m.into()).await
+                } else {
+                    let server = Server::builder().set_config(cfg).build("127.0.0.1:0").await.unwrap();
+                    (server.local_addr().unwrap(), server.start(m))
+                };
+                // a 1000-byte request and a 1000-byte answer: 300 < 1000 < 3000
+                let big_req = format!(r#"{{"jsonrpc":"2.0","id":1,"method":"len","params":["{}"]}}"#, "b".repeat(1000));
+                let small_req = r#"{"jsonrpc":"2.0","id":2,"method":"long"}"#.to_string();
+                for transport in ["ws", "http"] {
+                    let mut answers = vec![];
+                    if transport == "ws" {
+                        let sock = TcpStream::connect(addr).await.unwrap();
+                        let host = addr.to_string();
+                        let mut client = soketto::handshake::Client::new(sock.compat(), &host, "/");
+                        if !matches!(client.handshake().await, Ok(soketto::handshake::ServerResponse::Accepted { .. })) {
+                            why.push(format!("{entry}/{transport} ({req},{resp}): handshake refused"));
+                            continue;
+                        }
+                        let (mut tx, mut rx) = client.into_builder().finish();
+                        for rq in [&big_req, &small_req] {
+                            let _ = tx.send_text(rq.as_str()).await;
+                            let _ = tx.flush().await;
+                            let mut buf = Vec::new();
+                            match tokio::time::timeout(std::time::Duration::from_secs(5), rx.receive_data(&mut buf)).await {
+                                Ok(Ok(_)) => answers.push(serde_json::from_slice::<Value>(&buf).unwrap_or(Value::Null)),
+                                _ => answers.push(json!({"connection":"closed or silent"})),
+                            }
+                        }
+                    } else {
+                        for rq in [&big_req, &small_req] {
+                            let mut sock = TcpStream::connect(addr).await.unwrap();
+                            let t = format!("POST / HTTP/1.1\r\nHost: {addr}\r\nContent-Type: application/json\r\nConnection: close\r\nContent-Length: {}\r\n\r\n{}", rq.len(), rq);
+                            let _ = sock.write_all(t.as_bytes()).await;
+                            let mut out = Vec::new();
+                            let _ = tokio::time::timeout(std::time::Duration::from_secs(5), sock.read_to_end(&mut out)).await;
+                            let txt = String::from_utf8_lossy(&out).to_string();
+                            let status: u16 = txt.split_whitespace().nth(1).and_then(|s| s.parse().ok()).unwrap_or(0);
+                            let body = txt.split("\r\n\r\n").nth(1).unwrap_or("").to_string();
+                            let mut v = serde_json::from_str::<Value>(&body).unwrap_or(Value::Null);
+                            if !v.is_object() {
+                                v = json!({});
+                            }
+                            v["http_status"] = json!(status);
+                            answers.push(v);
+                        }
+                    }
+                    // the request of 1000 bytes: accepted iff 1000 <= request limit - whatever the response limit is
+                    let a0 = &answers[0];
+                    let accepted = a0["result"] == json!(1000);
+                    let refused = a0["error"]["code"] == json!(-32007) || a0["http_status"].as_u64().map(|s| s >= 400).unwrap_or(false);
+                    if (1000 <= req) != accepted || (1000 > req) != refused {
+                        why.push(format!("{entry}/{transport} limits (request {req}, response {resp}): a 1000-byte request got {a0}"));
+                    }
+                    // the answer of ~1000 bytes: delivered iff it fits the response limit - whatever the request limit is
+                    let a1 = answers.get(1).cloned().unwrap_or(Value::Null);
+                    let delivered = a1["result"].as_str().map(|s| s.len() == 1000).unwrap_or(false);
+                    let too_big = a1["error"]["code"] == json!(-32008);
+                    if (resp >= 3000) != delivered || (resp < 3000) != too_big {
+                        why.push(format!("{entry}/{transport} limits (request {req}, response {resp}): a 1000-byte answer came back as {}", a1.to_string().chars().take(140).collect::<String>()));
+                    }
+                }
+                let _ = handle.stop();
+            }
+        }
+        json!({"scenario":"c08_limits_apart","observed":{},"violation":!why.is_empty(),"why":why.join(" | ")})
+    })
+}
